@@ -188,7 +188,7 @@ impl Prop for C16 {
         vec![
             Dom::new(format!("pairs:words<={}over{{a,b,t,1,ω}}", self.tier.pick(4, 5)), n, self.tier.pick(8, 4)).note("case = first word; inner loop = every second word; all laws + every prefix cell; one reused instance per worker thread"),
             Dom::new("long-families", self.long.len() as u64, 2).note("case = first word; inner loop = every long word; lengths 0,1,19..22,32..34,51,52,70 x 5 shapes; laws + corner prefix cells"),
-            Dom::new("call-orders<=3", m + m * m + m * m * m, 400).note("every sequence of <= 3 distance calls on ONE fresh instance from a 24-pair menu of mixed lengths; no state merging; after every call: value = fresh instance, and prefix cells for short words"),
+            Dom::new(format!("call-orders<={}", self.tier.pick(3, 4)), seqs_len(m, 1, self.tier.pick(3, 4)), 400).note("every sequence of <= 3 (thorough: 4) distance calls on ONE fresh instance from a 24-pair menu of mixed lengths; no state merging; after every call: value = fresh instance, and prefix cells for short words"),
         ]
     }
     fn run(&self, dom: usize, idx: u64, cx: &mut Cx) {
@@ -236,7 +236,7 @@ impl Prop for C16 {
             }
             _ => {
                 let m = self.menu.len() as u64;
-                let seq: Vec<usize> = seq_at(m, 1, 3, idx);
+                let seq: Vec<usize> = seq_at(m, 1, self.tier.pick(3, 4), idx);
                 let inst = DamerauLevenshtein::new();
                 cx.state();
                 for (step, &k) in seq.iter().enumerate() {
